@@ -578,3 +578,613 @@ pub fn run_client(cfg: &ScenCfg, out: &mut RunOut) {
     let _ = BTreeMap::<u8, u8>::new();
     let _: Option<IpAddr> = None;
 }
+
+// ---------------------------------------------------------------------------
+// server side: write callbacks, database, address filter
+
+#[derive(Clone, Debug, PartialEq, Eq)]
+pub enum DbOp {
+    Add(u8, u16, u16),
+    Update(u8, u16, u16),
+    Delete(u8, u16),
+    Get(u8, u16),
+}
+
+#[derive(Clone, Debug, PartialEq, Eq)]
+pub enum DbRes {
+    Bool(bool),
+    Get(Result<u16, c_int>),
+}
+
+/// reference model of the point database: one map per point type
+#[derive(Clone, Default, Debug)]
+pub struct DbModel {
+    pub maps: [BTreeMap<u16, u16>; 4],
+}
+
+impl DbModel {
+    pub fn apply(&mut self, op: &DbOp) -> DbRes {
+        match op {
+            DbOp::Add(t, i, v) => {
+                let m = &mut self.maps[*t as usize];
+                if m.contains_key(i) {
+                    DbRes::Bool(false)
+                } else {
+                    m.insert(*i, *v);
+                    DbRes::Bool(true)
+                }
+            }
+            DbOp::Update(t, i, v) => {
+                let m = &mut self.maps[*t as usize];
+                if m.contains_key(i) {
+                    m.insert(*i, *v);
+                    DbRes::Bool(true)
+                } else {
+                    DbRes::Bool(false)
+                }
+            }
+            DbOp::Delete(t, i) => DbRes::Bool(self.maps[*t as usize].remove(i).is_some()),
+            DbOp::Get(t, i) => DbRes::Get(self.maps[*t as usize].get(i).copied().ok_or(PE_INVALID_INDEX)),
+        }
+    }
+}
+
+/// perform `op` through the extern "C" database functions
+unsafe fn db_exec(db: *mut rodbus_ffi::Database, op: &DbOp) -> DbRes {
+    match op {
+        DbOp::Add(0, i, v) => DbRes::Bool(ffi::rodbus_database_add_coil(db, *i, *v != 0)),
+        DbOp::Add(1, i, v) => DbRes::Bool(ffi::rodbus_database_add_discrete_input(db, *i, *v != 0)),
+        DbOp::Add(2, i, v) => DbRes::Bool(ffi::rodbus_database_add_holding_register(db, *i, *v)),
+        DbOp::Add(_, i, v) => DbRes::Bool(ffi::rodbus_database_add_input_register(db, *i, *v)),
+        DbOp::Update(0, i, v) => DbRes::Bool(ffi::rodbus_database_update_coil(db, *i, *v != 0)),
+        DbOp::Update(1, i, v) => DbRes::Bool(ffi::rodbus_database_update_discrete_input(db, *i, *v != 0)),
+        DbOp::Update(2, i, v) => DbRes::Bool(ffi::rodbus_database_update_holding_register(db, *i, *v)),
+        DbOp::Update(_, i, v) => DbRes::Bool(ffi::rodbus_database_update_input_register(db, *i, *v)),
+        DbOp::Delete(0, i) => DbRes::Bool(ffi::rodbus_database_delete_coil(db, *i)),
+        DbOp::Delete(1, i) => DbRes::Bool(ffi::rodbus_database_delete_discrete_input(db, *i)),
+        DbOp::Delete(2, i) => DbRes::Bool(ffi::rodbus_database_delete_holding_register(db, *i)),
+        DbOp::Delete(_, i) => DbRes::Bool(ffi::rodbus_database_delete_input_register(db, *i)),
+        DbOp::Get(0, i) => {
+            let mut o = false;
+            let rc = ffi::rodbus_database_get_coil(db, *i, &mut o);
+            DbRes::Get(if rc == 0 { Ok(o as u16) } else { Err(rc) })
+        }
+        DbOp::Get(1, i) => {
+            let mut o = false;
+            let rc = ffi::rodbus_database_get_discrete_input(db, *i, &mut o);
+            DbRes::Get(if rc == 0 { Ok(o as u16) } else { Err(rc) })
+        }
+        DbOp::Get(2, i) => {
+            let mut o = 0u16;
+            let rc = ffi::rodbus_database_get_holding_register(db, *i, &mut o);
+            DbRes::Get(if rc == 0 { Ok(o) } else { Err(rc) })
+        }
+        DbOp::Get(_, i) => {
+            let mut o = 0u16;
+            let rc = ffi::rodbus_database_get_input_register(db, *i, &mut o);
+            DbRes::Get(if rc == 0 { Ok(o) } else { Err(rc) })
+        }
+    }
+}
+
+fn gen_db_op() -> DbOp {
+    let t = choose(4) as u8;
+    let i = [0u16, 1, 2, 3, 65535][choose(5) as usize];
+    let v = if t < 2 { choose(2) as u16 } else { [0u16, 1, 0xABCD, 0xFFFF][choose(4) as usize] };
+    match weighted(&[4, 3, 2, 2]) {
+        0 => DbOp::Add(t, i, v),
+        1 => DbOp::Update(t, i, v),
+        2 => DbOp::Delete(t, i),
+        _ => DbOp::Get(t, i),
+    }
+}
+
+#[derive(Default)]
+struct TxCtx {
+    ops: Vec<DbOp>,
+    results: Vec<DbRes>,
+    calls: u32,
+    destroyed: u32,
+}
+
+extern "C" fn tx_callback(db: *mut rodbus_ffi::Database, ctx: *mut c_void) {
+    unsafe {
+        let m = &*(ctx as *const Mutex<TxCtx>);
+        let mut g = m.lock().unwrap();
+        g.calls += 1;
+        let ops = g.ops.clone();
+        for op in &ops {
+            let r = db_exec(db, op);
+            g.results.push(r);
+        }
+    }
+}
+extern "C" fn tx_destroy(ctx: *mut c_void) {
+    unsafe {
+        let m = &*(ctx as *const Mutex<TxCtx>);
+        m.lock().unwrap().destroyed += 1;
+        drop(Arc::from_raw(ctx as *const Mutex<TxCtx>));
+    }
+}
+
+fn db_callback(ops: Vec<DbOp>) -> (ffi::DatabaseCallback, Arc<Mutex<TxCtx>>) {
+    let c = Arc::new(Mutex::new(TxCtx {
+        ops,
+        ..TxCtx::default()
+    }));
+    (
+        ffi::DatabaseCallback {
+            callback: Some(tx_callback),
+            on_destroy: Some(tx_destroy),
+            ctx: Arc::into_raw(c.clone()) as *mut c_void,
+        },
+        c,
+    )
+}
+
+/// what the application's write callback returns next, and what it saw
+#[derive(Default)]
+struct WhCtx {
+    next: Option<(bool, c_int, u8)>,
+    /// database operations performed inside the callback
+    inner_ops: Vec<DbOp>,
+    inner_results: Vec<DbRes>,
+    seen: Vec<String>,
+    destroyed: u32,
+}
+
+unsafe fn wh_common(db: *mut rodbus_ffi::Database, ctx: *mut c_void, what: String) -> ffi::WriteResult {
+    let m = &*(ctx as *const Mutex<WhCtx>);
+    let mut g = m.lock().unwrap();
+    g.seen.push(what);
+    let ops = std::mem::take(&mut g.inner_ops);
+    for op in &ops {
+        let r = db_exec(db, op);
+        g.inner_results.push(r);
+    }
+    let (success, exception, raw) = g.next.take().unwrap_or((true, 1, 0));
+    ffi::WriteResult {
+        success,
+        exception,
+        raw_exception: raw,
+    }
+}
+
+extern "C" fn wh_coil(index: u16, value: bool, db: *mut rodbus_ffi::Database, ctx: *mut c_void) -> ffi::WriteResult {
+    unsafe { wh_common(db, ctx, format!("coil {} {}", index, value)) }
+}
+extern "C" fn wh_reg(index: u16, value: u16, db: *mut rodbus_ffi::Database, ctx: *mut c_void) -> ffi::WriteResult {
+    unsafe { wh_common(db, ctx, format!("reg {} {}", index, value)) }
+}
+extern "C" fn wh_coils(start: u16, it: *mut rodbus_ffi::BitValueIterator<'_>, db: *mut rodbus_ffi::Database, ctx: *mut c_void) -> ffi::WriteResult {
+    let mut v = Vec::new();
+    unsafe {
+        loop {
+            let p = ffi::rodbus_bit_value_iterator_next(it);
+            if p.is_null() || v.len() > 3000 {
+                break;
+            }
+            v.push(((*p).index, (*p).value));
+        }
+        wh_common(db, ctx, format!("coils {} {:?}", start, v))
+    }
+}
+extern "C" fn wh_regs(start: u16, it: *mut rodbus_ffi::RegisterValueIterator<'_>, db: *mut rodbus_ffi::Database, ctx: *mut c_void) -> ffi::WriteResult {
+    let mut v = Vec::new();
+    unsafe {
+        loop {
+            let p = ffi::rodbus_register_value_iterator_next(it);
+            if p.is_null() || v.len() > 300 {
+                break;
+            }
+            v.push(((*p).index, (*p).value));
+        }
+        wh_common(db, ctx, format!("regs {} {:?}", start, v))
+    }
+}
+extern "C" fn wh_destroy(ctx: *mut c_void) {
+    unsafe {
+        let m = &*(ctx as *const Mutex<WhCtx>);
+        m.lock().unwrap().destroyed += 1;
+        drop(Arc::from_raw(ctx as *const Mutex<WhCtx>));
+    }
+}
+
+fn gen_write_result() -> ((bool, c_int, u8), Option<u8>) {
+    // returns the WriteResult and the exception code the client must receive (None = success)
+    match weighted(&[4, 5, 3]) {
+        0 => ((true, 1, 0), None),
+        1 => {
+            let codes: [(c_int, u8); 9] = [(1, 1), (2, 2), (3, 3), (4, 4), (5, 5), (6, 6), (8, 8), (10, 10), (11, 11)];
+            let (e, c) = codes[choose(9) as usize];
+            ((false, e, choose(256) as u8), Some(c))
+        }
+        _ => {
+            let raw = choose(256) as u8;
+            ((false, 255, raw), Some(raw))
+        }
+    }
+}
+
+// authorization callbacks for the TLS+authz constructor: allow everything
+extern "C" fn az_range(_u: u8, _r: ffi::AddressRange, _role: *const std::os::raw::c_char, _c: *mut c_void) -> c_int {
+    0
+}
+extern "C" fn az_index(_u: u8, _i: u16, _role: *const std::os::raw::c_char, _c: *mut c_void) -> c_int {
+    0
+}
+extern "C" fn az_destroy(_c: *mut c_void) {}
+
+/// C18 (server half), C19 (map semantics), C16 (C ABI filter): variant 0 = TCP, 1 = TLS, 2 = TLS + authz
+pub fn run_server(cfg: &ScenCfg, out: &mut RunOut) {
+    use super::sessions::{gen_filter, gen_wildcard_string, FilterSpec};
+    let chunk = chance(1, 2);
+    let sched = chance(1, 2);
+    kernel::with(|w| {
+        w.cfg.sched_random = sched;
+        w.cfg.select_random = sched;
+        w.cfg.chunk_reads = chunk;
+        w.cfg.short_writes = chunk;
+    });
+    let dec_idx = choose(36) as u8;
+    let mut rt = FfiRuntime::new();
+    let mut wl = (cfg.variant as u64) << 48 | dec_idx as u64;
+    // ---- filter through the C ABI (strings)
+    for _ in 0..3 {
+        let (s, ok) = gen_wildcard_string();
+        // a plain IP address is also a valid filter string in the C ABI
+        let ok = ok || s.parse::<IpAddr>().is_ok();
+        let cs = match CString::new(s.clone()) {
+            Ok(c) => c,
+            Err(_) => continue,
+        };
+        let mut f: *mut rodbus_ffi::AddressFilter = std::ptr::null_mut();
+        let rc = unsafe { ffi::rodbus_address_filter_create(cs.as_ptr(), &mut f) };
+        if (rc == 0) != ok {
+            out.violate("C16", "ffi_filter_string", format!("rodbus_address_filter_create({:?}) returned {} but well-formed={}", s, rc, ok));
+            return;
+        }
+        if rc == 0 {
+            unsafe { ffi::rodbus_address_filter_destroy(f) };
+        }
+    }
+    let (spec, base) = gen_filter();
+    hash_bytes(&mut wl, format!("{:?}", spec).as_bytes());
+    let filter: *mut rodbus_ffi::AddressFilter = unsafe {
+        match &spec {
+            FilterSpec::Any => ffi::rodbus_address_filter_any(),
+            FilterSpec::Exact(ip) => {
+                let mut f = std::ptr::null_mut();
+                let c = CString::new(ip.to_string()).unwrap();
+                if ffi::rodbus_address_filter_create(c.as_ptr(), &mut f) != 0 {
+                    out.violate("C16", "ffi_filter_string", format!("address {} rejected", ip));
+                    return;
+                }
+                f
+            }
+            FilterSpec::AnyOf(v) => {
+                let mut f = std::ptr::null_mut();
+                let c = CString::new(v[0].to_string()).unwrap();
+                if ffi::rodbus_address_filter_create(c.as_ptr(), &mut f) != 0 {
+                    out.violate("C16", "ffi_filter_string", format!("address {} rejected", v[0]));
+                    return;
+                }
+                for ip in &v[1..] {
+                    let c = CString::new(ip.to_string()).unwrap();
+                    if ffi::rodbus_address_filter_add(f, c.as_ptr()) != 0 {
+                        out.violate("C16", "ffi_filter_add", format!("adding {} rejected", ip));
+                        return;
+                    }
+                }
+                f
+            }
+            FilterSpec::Wildcard(w) => {
+                let mut f = std::ptr::null_mut();
+                let c = CString::new(FilterSpec::wildcard_string(w)).unwrap();
+                if ffi::rodbus_address_filter_create(c.as_ptr(), &mut f) != 0 {
+                    out.violate("C16", "ffi_filter_string", format!("wildcard {:?} rejected", w));
+                    return;
+                }
+                f
+            }
+        }
+    };
+    // ---- endpoints
+    let map = unsafe { ffi::rodbus_device_map_create() };
+    let nunits = 1 + choose(2) as usize;
+    let mut units: Vec<(u8, Arc<Mutex<WhCtx>>, DbModel)> = Vec::new();
+    for k in 0..nunits {
+        let unit = [1u8, 7, 0][k];
+        let wh = Arc::new(Mutex::new(WhCtx::default()));
+        let handler = ffi::WriteHandler {
+            write_single_coil: Some(wh_coil),
+            write_single_register: Some(wh_reg),
+            write_multiple_coils: Some(wh_coils),
+            write_multiple_registers: Some(wh_regs),
+            on_destroy: Some(wh_destroy),
+            ctx: Arc::into_raw(wh.clone()) as *mut c_void,
+        };
+        let ops: Vec<DbOp> = (0..2 + choose(10)).map(|_| gen_db_op()).collect();
+        let (cb, txc) = db_callback(ops.clone());
+        let ok = unsafe { ffi::rodbus_device_map_add_endpoint(map, unit, handler, cb) };
+        if !ok {
+            out.violate("C19", "add_endpoint", format!("add_endpoint({}) failed", unit));
+            return;
+        }
+        let mut model = DbModel::default();
+        let want: Vec<DbRes> = ops.iter().map(|o| model.apply(o)).collect();
+        let got = txc.lock().unwrap().results.clone();
+        if got != want {
+            out.violate("C19", "database_op_result", format!("configure callback of unit {}: ops {:?} returned {:?}, the per-type map model says {:?}", unit, ops, got, want));
+            return;
+        }
+        out.ops_checked += ops.len() as u64;
+        units.push((unit, wh, model));
+    }
+    // ---- the server
+    let host = CString::new("10.0.0.1").unwrap();
+    let mut server: *mut rodbus_ffi::Server = std::ptr::null_mut();
+    let paths: Vec<CString> = ["ca1_cert.pem", "srv_ok_cert.pem", "srv_ok_key.pem"].iter().map(|f| CString::new(super::tls::fixture(f).to_str().unwrap()).unwrap()).collect();
+    let empty = CString::new("").unwrap();
+    let rc = unsafe {
+        match cfg.variant {
+            0 => ffi::rodbus_server_create_tcp(rt.ptr, host.as_ptr(), 502, filter, 8, map, ffi_decode(dec_idx), &mut server),
+            v => {
+                let tls = ffi::TlsServerConfig {
+                    peer_cert_path: paths[0].as_ptr(),
+                    local_cert_path: paths[1].as_ptr(),
+                    private_key_path: paths[2].as_ptr(),
+                    password: empty.as_ptr(),
+                    min_tls_version: 0,
+                    certificate_mode: 0,
+                };
+                if v == 1 {
+                    ffi::rodbus_server_create_tls(rt.ptr, host.as_ptr(), 502, filter, 8, map, tls, ffi_decode(dec_idx), &mut server)
+                } else {
+                    let az = ffi::AuthorizationHandler {
+                        read_coils: Some(az_range),
+                        read_discrete_inputs: Some(az_range),
+                        read_holding_registers: Some(az_range),
+                        read_input_registers: Some(az_range),
+                        write_single_coil: Some(az_index),
+                        write_single_register: Some(az_index),
+                        write_multiple_coils: Some(az_range),
+                        write_multiple_registers: Some(az_range),
+                        on_destroy: Some(az_destroy),
+                        ctx: std::ptr::null_mut(),
+                    };
+                    ffi::rodbus_server_create_tls_with_authz(rt.ptr, host.as_ptr(), 502, filter, 8, map, tls, az, ffi_decode(dec_idx), &mut server)
+                }
+            }
+        }
+    };
+    unsafe {
+        ffi::rodbus_device_map_destroy(map);
+        ffi::rodbus_address_filter_destroy(filter);
+    }
+    if rc != 0 {
+        out.violate("C18", "server_create", format!("server_create (variant {}) returned {}", cfg.variant, rc));
+        return;
+    }
+    kernel::settle();
+    let addr: SocketAddr = "10.0.0.1:502".parse().unwrap();
+    // ---- C16: peers from the lattice
+    let npeers = 1 + choose(4) as usize;
+    let mut served_peer: Option<PeerEnd> = None;
+    for i in 0..npeers {
+        let ip = super::sessions::gen_peer_ip_pub(base);
+        hash_bytes(&mut wl, ip.to_string().as_bytes());
+        let matches = spec.matches(ip);
+        let from = SocketAddr::new(ip, 2100 + i as u16);
+        if cfg.variant == 0 {
+            let p = match net::connect_from(addr, from) {
+                Some(p) => p,
+                None => {
+                    out.violate("C16", "not_listening", "the C ABI server is not listening".into());
+                    return;
+                }
+            };
+            kernel::settle();
+            // a read of an absent point is still an answer (exception 02)
+            p.write(&mbap_frame(3, 1, &[4, 0xFF, 0xF0, 0, 1]));
+            kernel::settle();
+            let got = p.take_received();
+            if matches {
+                if got.len() < 9 {
+                    out.violate("C16", "matching_peer_not_served", format!("C ABI tcp, filter {:?}: peer {} matches but received {}", spec, ip, hex(&got)));
+                    return;
+                }
+                out.probe("served");
+                served_peer = Some(p);
+            } else {
+                if !got.is_empty() || !p.remote_closed() {
+                    out.violate("C16", "non_matching_peer_served", format!("C ABI tcp, filter {:?}: peer {} does not match but received {} bytes (closed={})", spec, ip, got.len(), p.remote_closed()));
+                    return;
+                }
+                out.probe("rejected");
+            }
+        } else {
+            // TLS variants: a non-matching peer must not even get a TLS byte
+            let p = match net::connect_from(addr, from) {
+                Some(p) => p,
+                None => {
+                    out.violate("C16", "not_listening", "the C ABI TLS server is not listening".into());
+                    return;
+                }
+            };
+            kernel::settle();
+            // plaintext is enough to tell "closed without any response" from "TLS stack answered"
+            p.write(&mbap_frame(3, 1, &[4, 0xFF, 0xF0, 0, 1]));
+            kernel::settle();
+            let got = p.take_received();
+            if matches {
+                if got.is_empty() && p.remote_closed() {
+                    out.violate("C16", "matching_peer_not_served", format!("C ABI tls variant {}, filter {:?}: peer {} matches but the connection was closed without a TLS response", cfg.variant, spec, ip));
+                    return;
+                }
+                out.probe("served");
+            } else {
+                if !got.is_empty() || !p.remote_closed() {
+                    let key = if cfg.variant == 1 { "ffi_tls_server_ignores_filter" } else { "" };
+                    if !(key != "" && out.known("C16", key)) {
+                        out.violate("C16", "non_matching_peer_served", format!("C ABI tls variant {}, filter {:?}: peer {} does not match but received {} bytes {} (closed={})", cfg.variant, spec, ip, got.len(), hex(&got), p.remote_closed()));
+                        return;
+                    }
+                }
+                out.probe("rejected");
+            }
+        }
+        out.ops_checked += 1;
+    }
+    // ---- C18 / C19 over plain TCP with a served peer
+    if cfg.variant == 0 {
+        let peer = match served_peer {
+            Some(p) => Some(p),
+            None => {
+                // find an address that matches
+                let ip = match &spec {
+                    FilterSpec::Any => Some("10.9.9.9".parse().unwrap()),
+                    FilterSpec::Exact(ip) => Some(*ip),
+                    FilterSpec::AnyOf(v) => Some(v[0]),
+                    FilterSpec::Wildcard(w) => Some(IpAddr::V4(std::net::Ipv4Addr::new(w[0].unwrap_or(9), w[1].unwrap_or(9), w[2].unwrap_or(9), w[3].unwrap_or(9)))),
+                };
+                ip.and_then(|ip| net::connect_from(addr, SocketAddr::new(ip, 2999)))
+            }
+        };
+        let peer = match peer {
+            Some(p) => p,
+            None => return,
+        };
+        kernel::settle();
+        let mut tx = 100u16;
+        let nops = 3 + choose(14) as usize;
+        for _ in 0..nops {
+            let ui = choose(units.len() as u32) as usize;
+            let unit = units[ui].0;
+            match weighted(&[3, 4, 4]) {
+                0 => {
+                    // transaction through the C ABI
+                    let ops: Vec<DbOp> = (0..1 + choose(6)).map(|_| gen_db_op()).collect();
+                    let (cb, txc) = db_callback(ops.clone());
+                    let rc = unsafe { ffi::rodbus_server_update_database(server, unit, cb) };
+                    let want: Vec<DbRes> = ops.iter().map(|o| units[ui].2.apply(o)).collect();
+                    let g = txc.lock().unwrap();
+                    if rc != 0 || g.calls != 1 || g.results != want || g.destroyed != 1 {
+                        out.violate("C19", "database_op_result", format!("transaction on unit {}: rc={} calls={} destroy={} ops {:?} returned {:?}, the model says {:?}", unit, rc, g.calls, g.destroyed, ops, g.results, want));
+                        return;
+                    }
+                    out.ops_checked += ops.len() as u64;
+                    hash_bytes(&mut wl, format!("{:?}", ops).as_bytes());
+                }
+                1 => {
+                    // client read: data if every point exists, else exception 02
+                    let ty = choose(4) as u8;
+                    let start = [0u16, 1, 2, 65535, 65534][choose(5) as usize];
+                    let count = ((1 + choose(3)) as u32).min(65536 - start as u32).max(1) as u16;
+                    let fc = [1u8, 2, 3, 4][ty as usize];
+                    tx = tx.wrapping_add(1);
+                    peer.write(&mbap_frame(tx, unit, &[fc, (start >> 8) as u8, start as u8, 0, count as u8]));
+                    kernel::settle();
+                    let got = peer.take_received();
+                    let m = &units[ui].2.maps[ty as usize];
+                    let vals: Option<Vec<u16>> = (0..count).map(|k| m.get(&(start + k)).copied()).collect();
+                    let want_pdu = match vals {
+                        None => vec![fc | 0x80, 2],
+                        Some(v) => {
+                            let req = match ty {
+                                0 => Req::ReadCoils { start, count },
+                                1 => Req::ReadDiscrete { start, count },
+                                2 => Req::ReadHolding { start, count },
+                                _ => Req::ReadInput { start, count },
+                            };
+                            let bits: Vec<bool> = v.iter().map(|x| *x != 0).collect();
+                            pdu::encode_ok_reply(&req, &bits, &v)
+                        }
+                    };
+                    let want = mbap_frame(tx, unit, &want_pdu);
+                    if got != want {
+                        out.violate("C19", "client_read_vs_database", format!("read type {} start {} count {} on unit {}: reply {} expected {} (database model {:?})", ty, start, count, unit, hex(&got), hex(&want), m));
+                        return;
+                    }
+                    out.ops_checked += 1;
+                    hash_bytes(&mut wl, &[fc, start as u8, count as u8]);
+                }
+                _ => {
+                    // client write: the callback's WriteResult is what the client receives
+                    let (wr, code) = gen_write_result();
+                    let inner: Vec<DbOp> = if chance(1, 3) { (0..1 + choose(2)).map(|_| gen_db_op()).collect() } else { Vec::new() };
+                    {
+                        let mut g = units[ui].1.lock().unwrap();
+                        g.next = Some(wr);
+                        g.inner_ops = inner.clone();
+                        g.inner_results.clear();
+                        g.seen.clear();
+                    }
+                    let req = match choose(4) {
+                        0 => Req::WriteCoil { addr: choose(5) as u16, value: choose(2) == 1 },
+                        1 => Req::WriteReg { addr: choose(5) as u16, value: pick_u16_boundary() },
+                        2 => Req::WriteCoils { start: choose(3) as u16, values: (0..1 + choose(10)).map(|_| choose(2) == 1).collect() },
+                        _ => Req::WriteRegs { start: choose(3) as u16, values: (0..1 + choose(5)).map(|_| choose(65536) as u16).collect() },
+                    };
+                    tx = tx.wrapping_add(1);
+                    peer.write(&mbap_frame(tx, unit, &pdu::encode_req(&req)));
+                    kernel::settle();
+                    let got = peer.take_received();
+                    let want_pdu = match code {
+                        None => pdu::encode_ok_reply(&req, &[], &[]),
+                        Some(c) => vec![req.fc() | 0x80, c],
+                    };
+                    let want = mbap_frame(tx, unit, &want_pdu);
+                    let want_inner: Vec<DbRes> = inner.iter().map(|o| units[ui].2.apply(o)).collect();
+                    let g = units[ui].1.lock().unwrap();
+                    let want_seen = match &req {
+                        Req::WriteCoil { addr, value } => format!("coil {} {}", addr, value),
+                        Req::WriteReg { addr, value } => format!("reg {} {}", addr, value),
+                        Req::WriteCoils { start, values } => format!("coils {} {:?}", start, values.iter().enumerate().map(|(i, v)| (start + i as u16, *v)).collect::<Vec<_>>()),
+                        Req::WriteRegs { start, values } => format!("regs {} {:?}", start, values.iter().enumerate().map(|(i, v)| (start + i as u16, *v)).collect::<Vec<_>>()),
+                        _ => unreachable!(),
+                    };
+                    if g.seen != vec![want_seen.clone()] {
+                        out.violate("C18", "write_callback_arguments", format!("fc={}: the write callback saw {:?}, expected [{}]", req.fc(), g.seen, want_seen));
+                        return;
+                    }
+                    if got != want {
+                        let key = if req.fc() == 5 && code.is_some() { "ffi_write_single_coil_result_replaced" } else { "" };
+                        if !(key != "" && out.known("C18", key)) {
+                            out.violate(
+                                "C18",
+                                "write_result_not_forwarded",
+                                format!("fc={}: the write callback returned success={} exception={} raw={} but the client received {} (expected {})", req.fc(), wr.0, wr.1, wr.2, hex(&got), hex(&want)),
+                            );
+                            return;
+                        }
+                    }
+                    if g.inner_results != want_inner {
+                        out.violate("C19", "database_op_result", format!("inside a write callback: ops {:?} returned {:?}, the model says {:?}", inner, g.inner_results, want_inner));
+                        return;
+                    }
+                    out.ops_checked += 1;
+                    hash_bytes(&mut wl, &[req.fc(), wr.0 as u8, wr.1 as u8, wr.2]);
+                }
+            }
+            if chance(1, 8) {
+                let rc = unsafe { ffi::rodbus_server_set_decode_level(server, ffi_decode(choose(36) as u8)) };
+                if rc != 0 {
+                    out.violate("C18", "server_set_decode_level", format!("returned {}", rc));
+                    return;
+                }
+            }
+        }
+    }
+    unsafe { ffi::rodbus_server_destroy(server) };
+    kernel::settle();
+    rt.destroy();
+    for (u, wh, _) in &units {
+        let d = wh.lock().unwrap().destroyed;
+        if d != 1 {
+            out.violate("C18", "write_handler_destroy_count", format!("unit {}: WriteHandler on_destroy fired {} times after server and runtime were destroyed", u, d));
+        }
+    }
+    out.nontrivial = Some(wl);
+    out.sample = Some(json!({"scenario": "C ABI server: write results, database, address filter", "variant": cfg.variant, "filter": format!("{:?}", spec), "units": units.iter().map(|u| u.0).collect::<Vec<_>>()}));
+}
